@@ -98,6 +98,20 @@ def one_run(res, edges, m0, tap, ctx):
         sut("set_max_clique_size", e.set_max_clique_size, m0 + 1)
         sut("limited_maximal_cliques (read-only peek)", e.limited_maximal_cliques)
         sut("set_max_clique_size", e.set_max_clique_size, m0)
+    elif order == "assign-graph-to-a-used-object":
+        # history: the object first covers ANOTHER graph (a triangle with a tail, built from edges), then the caller hands it the graph
+        # of this case as a networkx object through the public G setter
+        sut("add_edges_from (first, other graph)", e.add_edges_from, [(-1, -2), (-2, -3), (-1, -3), (-3, -4)])
+        sut("set_max_clique_size", e.set_max_clique_size, 3)
+        with installed(RandomTap(seed=5, keep_log=False), "eecc"):
+            sut("get_EECC (first use of the object, other graph)", e.get_EECC)
+        g2 = nx.Graph()
+        g2.add_edges_from(es_list)
+
+        def _assign():
+            e.G = g2
+        sut("G setter", _assign)
+        sut("set_max_clique_size", e.set_max_clique_size, m0)
     else:   # "reuse": the object has already produced a cover of the same graph under another bound; the edges are put back
         sut("add_edges_from", e.add_edges_from, wrap(es_list))
         sut("set_max_clique_size", e.set_max_clique_size, m0 + 2 if m0 < 4 else 2)
@@ -193,7 +207,7 @@ def run_case(case):
         for kind, val in scheds:
             tap = RandomTap(seed=val if kind == "seed" else 0, preset={"choice": val} if kind == "preset" else None, on_event=guard)
             r = one_run(res, edges, m0, tap, dict(base, schedule=[kind, val],
-                                                   build_order=rng.choice(["edges-then-bound", "edges-then-bound", "bound-then-edges", "interleaved", "bound-twice", "peek-then-rebound", "reuse"]),
+                                                   build_order=rng.choice(["edges-then-bound", "edges-then-bound", "bound-then-edges", "interleaved", "bound-twice", "peek-then-rebound", "reuse", "assign-graph-to-a-used-object"]),
                                                    edge_container=rng.choice(["list", "list", "list", "tuple", "generator", "iterator", "zip", "dict-keys"])))
             if r is None:
                 ok = False; break
